@@ -60,8 +60,14 @@ CtrOf(k) == CASE k \in {"SB20", "SB21", "HAB", "HABRT"} -> <<"dek", "nonce">>
               [] k = "BEE" -> <<"sw_key", "counter">>
               [] OTHER -> <<>>
 
+\* kinds whose configuration entry point is a method of the OBJECT (MasterBootImage.load_from_config(self, config)): the same object can be
+\* configured again and then holds a NEW artefact.  Every other kind builds a new object per configuration (class / static methods), the
+\* legacy BootImgRT refuses a second add_image: for them a history has no such step.
+Reconf == {"MBI"}
+
 \* ---------------------------------------------------------------------------------- state
-VARIABLES arts,      \* sequence of artefacts: [kind, how, ex, proc, val]  (val: field -> id, 0 = not observed yet)
+VARIABLES arts,      \* sequence of artefacts: [kind, how, ex, proc, of, val]  (val: field -> id, 0 = not observed yet;
+                     \*   of = the artefact whose object was configured again to build this one, 0 = a new object)
           old,       \* old[a]: self-chosen ids artefact a carried before its latest export (an export may draw new padding)
           proc,      \* number of the running interpreter
           live,      \* artefacts that exist in the running interpreter
@@ -82,8 +88,9 @@ NoShared(a, r, asserted) == \A f \in asserted : r.val[f] # 0 => FreshFor(a, r.va
 NonceOk(a, r) == (HasPair(r) /\ ~UserPair(r)) =>
                    \A b \in DOMAIN arts : (b # a /\ HasPair(Art(b))) => PairOf(Art(b)) # PairOf(r)
 
-Rec(k, h, ex, vals) == [kind |-> k, how |-> h, ex |-> ex, proc |-> proc,
+Rec(k, h, ex, vals) == [kind |-> k, how |-> h, ex |-> ex, proc |-> proc, of |-> 0,
                         val |-> [f \in Fields(k) |-> IF f \in DOMAIN vals THEN vals[f] ELSE 0]]
+RecOf(o, ex, vals) == [Rec(Art(o).kind, "config", ex, vals) EXCEPT !.of = o]   \* the artefact a configured-again object holds
 
 Init == arts = <<>> /\ old = <<>> /\ proc = 1 /\ live = {} /\ imported = FALSE
 
@@ -110,6 +117,22 @@ Construct(k, h, ex, vals, excused) ==
   /\ (NonceOk(a, r) \/ ToSet(CtrOf(k)) \cap excused # {})
   /\ RecordConstruct(k, h, ex, vals)
 
+\* the object of live artefact o is configured AGAIN through its load_from_config (ex = what the user supplies this time): the object now
+\* holds a new artefact, o is gone.  The new artefact is built as independently as any other: what SPSDK chooses for it is carried by no
+\* other artefact of the history - in particular not by o, whether o got the value from SPSDK or from its user.
+RecordReconfigure(o, ex, vals) ==
+  /\ arts' = Append(arts, RecOf(o, ex, vals)) /\ old' = Append(old, {}) /\ live' = (live \ {o}) \cup {Len(arts) + 1}
+  /\ UNCHANGED <<proc, imported>>
+Reconfigure(o, ex, vals, excused) ==
+  LET a == Len(arts) + 1
+      k == Art(o).kind
+      r == RecOf(o, ex, vals) IN
+  /\ o \in live /\ k \in Reconf /\ ex \in ExOf(k, "config")
+  /\ DOMAIN vals \subseteq Fields(k) /\ DOMAIN vals # {} /\ \A f \in DOMAIN vals : vals[f] # 0
+  /\ NoShared(a, r, (Fields(k) \ ex) \ excused)
+  /\ (NonceOk(a, r) \/ ToSet(CtrOf(k)) \cap excused # {})
+  /\ RecordReconfigure(o, ex, vals)
+
 \* the artefact is serialised; vals = every field as found in the exported bytes (skip: narrow fields left out)
 Export(a, vals, skip, excused) ==
   LET k == Art(a).kind
@@ -132,7 +155,13 @@ NoSharedSecret == \A a, b \in DOMAIN arts : a # b => /\ AllSelf(a) \cap AllSelf(
                                                       /\ (b < a => AllSelf(a) \cap GivenVals(Art(b)) = {})
 NoNonceReuse == \A a, b \in DOMAIN arts :
                   (a # b /\ HasPair(Art(a)) /\ HasPair(Art(b)) /\ ~UserPair(Art(a))) => PairOf(Art(a)) # PairOf(Art(b))
+\* the clause of NoSharedSecret that a configured-again object can break on its own (implied by NoSharedSecret; kept as a separate, readable invariant):
+\* nothing the object held before - self-chosen or explicit - is what SPSDK "chooses" for its next configuration
+ReconfiguredFresh == \A a \in DOMAIN arts : Art(a).of # 0 => AllSelf(a) \cap Has(Art(a).of) = {}
 TypeOK == /\ Len(old) = Len(arts) /\ live \subseteq DOMAIN arts
+          /\ \A a \in DOMAIN arts : /\ Art(a).of \in 0..(a - 1)
+                                    /\ Art(a).of # 0 => /\ Art(a).kind \in Reconf /\ Art(a).how = "config" /\ Art(a).of \notin live
+                                                        /\ Art(Art(a).of).kind = Art(a).kind /\ Art(Art(a).of).proc = Art(a).proc
           /\ \A a \in DOMAIN arts : Art(a).kind \in Kinds /\ Art(a).ex \in ExOf(Art(a).kind, Art(a).how) /\ Art(a).proc <= proc
           /\ \A a \in live : Art(a).proc = proc
 =============================================================================
